@@ -110,6 +110,26 @@ impl Ctx {
     }
 }
 
+/// Waker handed to the stream in place of the task's own: forwards to it until switched off.
+#[derive(Default)]
+struct RelayWaker {
+    inner: std::sync::Mutex<Option<std::task::Waker>>,
+    dead: std::sync::atomic::AtomicBool,
+}
+
+impl std::task::Wake for RelayWaker {
+    fn wake(self: Arc<Self>) {
+        self.wake_by_ref()
+    }
+    fn wake_by_ref(self: &Arc<Self>) {
+        if !self.dead.load(Ordering::SeqCst) {
+            if let Some(w) = self.inner.lock().unwrap().as_ref() {
+                w.wake_by_ref();
+            }
+        }
+    }
+}
+
 fn io_res(r: &std::io::Result<usize>) -> AppRes {
     match r {
         Ok(n) => AppRes::Ok(*n),
@@ -154,6 +174,54 @@ pub async fn run_writer(ctx: Ctx, node: usize, conn: usize, key: u64, mut w: Utp
                         p
                     })
                     .await;
+                    ctx.log(node, conn, Half::W, AppKind::Write { off }, io_res(&r));
+                    match r {
+                        Ok(0) => {
+                            failed = true;
+                            break 'ops;
+                        }
+                        Ok(k) => {
+                            off += k as u64;
+                            remaining -= k as u64;
+                        }
+                        Err(_) => {
+                            failed = true;
+                            break 'ops;
+                        }
+                    }
+                }
+            }
+            WOp::WriteImpatient { n, chunk, ms } => {
+                let mut remaining = n;
+                while remaining > 0 {
+                    let len = (chunk.max(1) as u64).min(remaining) as usize;
+                    buf.resize(len, 0);
+                    prf_fill(key, off, &mut buf);
+                    let mut blocked_logged = false;
+                    // each attempt polls through its own relay waker; an abandoned attempt's
+                    // relay is switched off, like the waker of a task that is gone
+                    let mut attempts = 0u32;
+                    let r = loop {
+                        attempts += 1;
+                        // (after 100 abandoned attempts the writer simply waits)
+                        let ms = if attempts > 100 { 1 << 40 } else { ms };
+                        let relay = Arc::new(RelayWaker::default());
+                        let waker = std::task::Waker::from(relay.clone());
+                        let attempt = std::future::poll_fn(|cx| {
+                            *relay.inner.lock().unwrap() = Some(cx.waker().clone());
+                            let mut cx2 = std::task::Context::from_waker(&waker);
+                            let p = Pin::new(&mut w).poll_write(&mut cx2, &buf);
+                            if p.is_pending() && !blocked_logged {
+                                blocked_logged = true;
+                                ctx.log(node, conn, Half::W, AppKind::WriteBlocked { off }, AppRes::Pending);
+                            }
+                            p
+                        });
+                        match tokio::time::timeout(Duration::from_millis(ms.max(1)), attempt).await {
+                            Ok(r) => break r,
+                            Err(_) => relay.dead.store(true, Ordering::SeqCst),
+                        }
+                    };
                     ctx.log(node, conn, Half::W, AppKind::Write { off }, io_res(&r));
                     match r {
                         Ok(0) => {
